@@ -51,6 +51,7 @@ type Contract struct {
 	Preserves []string
 	CalleesPreserve []string
 	NoSafety  bool
+	DecideBranches bool // case contracts: undecided `x == constant` branches are put to the solver
 	KeepPre   bool // with nosafety: callee preconditions are still checked
 	AllocBound string
 	InlineDepth int
@@ -100,7 +101,7 @@ func (c *Contract) HasProp(p string) bool {
 // Thorough: the thorough tier is running (clauses labelled [...@thorough] are included).
 var Thorough bool
 
-var kwRe = regexp.MustCompile(`^(prop|func|lemma|case|closure|vars|inline-calls|requires|ensures|modifies|preserves|callees-preserve|alloc-bound|nosafety|inline-depth|may-panic|maybe-nil|inline|trusted|noverify|sweep|loop|invariant|exit-assume|unroll|iface)\b(\[[A-Za-z0-9_\-\.@]+\])?\s*(.*)$`)
+var kwRe = regexp.MustCompile(`^(prop|func|lemma|case|closure|vars|inline-calls|requires|ensures|modifies|preserves|callees-preserve|alloc-bound|decide-branches|nosafety|inline-depth|may-panic|maybe-nil|inline|trusted|noverify|sweep|loop|invariant|exit-assume|unroll|iface)\b(\[[A-Za-z0-9_\-\.@]+\])?\s*(.*)$`)
 
 // ParseContractFile extracts //@ blocks from one Go file.
 func ParseContractFile(path, pkgPath string) ([]*Contract, error) {
@@ -221,6 +222,8 @@ func ParseContractFile(path, pkgPath string) ([]*Contract, error) {
 			}
 		case "alloc-bound":
 			cur.AllocBound = strings.TrimSpace(p.text)
+		case "decide-branches":
+			cur.DecideBranches = true
 		case "nosafety":
 			cur.NoSafety = true
 			if strings.TrimSpace(p.text) == "keep-pre" {
